@@ -316,5 +316,6 @@ Ok on both exits, the char-boundary graph cut of the &str variant, the table var
 mat.pattern() and pass-through of the AhoCorasick wrappers. None of this code is executed by the pinned test suite with more than
 trivial inputs; the rules hold for all haystacks, closures and match sequences at once."""
 NOTE = """Trusted: rustc MIR construction; the fact extractor; std slicing/append semantics. The match sequence itself is C01/C02. Anchors are
-def-paths and the user variable names haystack, dst, m, last_match, replace_with; renaming them is reported as a missing anchor."""
+def-paths; locals are resolved by role (parameter position, type, data flow), parameters and fields by the reference names restored at
+load time (rename maps of E6)."""
 TECHNIQUE = "static analysis: role-based term reconstruction of slice bounds and call arguments from rustc MIR (no local names), graph-cut and ordering queries on the CFG with path-sensitive boolean flow"
